@@ -347,8 +347,19 @@ func (h *harness) random() {
 	for i := 0; i < n; i++ {
 		r := run.Rand.Fork()
 		o := engine.GenOpts{MaxDepth: r.Range(1, 3), MaxFields: r.Range(2, 3), MaxItems: 3, Mutation: true}
-		shape := engine.GenShape(r, o, 0, r.Range(2, 4))
+		nroot := r.Range(2, 4)
 		wo := engine.WorldOpts{PAsync: r.Range(3, 7), PFail: r.Range(0, 3), PNull: r.Range(0, 2), PBad: r.Range(0, 1), MaxItems: 3, ValueKindErrors: true}
+		if r.Chance(1, 6) {
+			// wide selection sets: 5–12 root fields and / or up to 5–9 keys in nested sets
+			nroot = r.Range(5, 12)
+			o.MaxDepth, o.MaxItems = r.Range(1, 2), 2
+			if r.Bool() {
+				o.MaxFields = r.Range(5, 9)
+			}
+			wo.PAsync, wo.MaxItems = r.Range(1, 4), 2
+			run.Count("rand:wide")
+		}
+		shape := engine.GenShape(r, o, 0, nroot)
 		world := engine.GenWorld(r, shape, wo)
 		base := &engine.Case{Mutation: true, Shape: shape, World: world}
 		for k := 0; k < 3; k++ {
@@ -434,6 +445,9 @@ func main() {
 		}
 	}
 	h.exhaustive()
+	cs := engine.WideCases(true, run.Scale(100, 600))
+	run.CountN("wide selection sets (5–12 keys) × presentations", len(cs))
+	h.batch(cs, "wide")
 	h.random()
 	run.Finish(h.model)
 }
